@@ -92,6 +92,9 @@ func isFreshLocal(v ssa.Value) bool {
 }
 
 // accessKind classifies the use of a guarded map field address.
+// guardedEscapes: Return instructions that hand a guarded map itself (not a copy, not an element) back to the caller.
+var guardedEscapes = map[ssa.Instruction]bool{}
+
 func fieldAccesses(fa *ssa.FieldAddr) (reads, writes []ssa.Instruction) {
 	for _, r := range *fa.Referrers() {
 		switch x := r.(type) {
@@ -130,6 +133,26 @@ func fieldAccesses(fa *ssa.FieldAddr) (reads, writes []ssa.Instruction) {
 					reads = append(reads, y)
 					any = true
 				case *ssa.DebugRef:
+				case *ssa.Return:
+					// the live map handed back to the caller: whatever the caller does with it happens after the unlock
+					guardedEscapes[y] = true
+					reads = append(reads, y)
+					any = true
+				case *ssa.Store:
+					// ... also through the result slot a deferred unlock makes the compiler spill the result to
+					if al, ok := y.Addr.(*ssa.Alloc); ok && y.Val == ssa.Value(x) && al.Referrers() != nil {
+						for _, r3 := range *al.Referrers() {
+							if ld, ok := r3.(*ssa.UnOp); ok && ld.Referrers() != nil {
+								for _, r4 := range *ld.Referrers() {
+									if _, isRet := r4.(*ssa.Return); isRet {
+										guardedEscapes[y] = true
+									}
+								}
+							}
+						}
+					}
+					reads = append(reads, y)
+					any = true
 				default:
 					reads = append(reads, rr)
 					any = true
@@ -218,6 +241,8 @@ func ruleC20(r *Report) {
 								must := f.mustAt[acc]
 								if fresh {
 									r.Trivial("C20.guarded", c, p.InstrPos(acc), "object allocated in this function (not yet shared)")
+								} else if guardedEscapes[acc] {
+									r.Bad("C20.guarded", fmt.Sprintf("%s: the guarded map %s stays inside its critical section", fname, key), p.InstrPos(acc), fmt.Sprintf("the function returns %s itself: the caller indexes or ranges over the live map after %s has been released, concurrently with the writers", key, g.Mutex))
 								} else {
 									r.Check(must[g.Mutex] >= modeR, "C20.guarded", c, p.InstrPos(acc),
 										"held "+stateString(must), fmt.Sprintf("%s is read without holding %s (held: %s)", key, g.Mutex, stateString(must)))
